@@ -5,7 +5,22 @@ NOTE_DEFAULT = ("Trusted: Lean kernel + axioms propext/Classical.choice/Quot.sou
                 "generated inputs — outside the tables the tie is testing, as strong as its generators. protobuf/upb, rdflib "
                 "and CPython io are modelled, not verified.")
 NOTE = {}
-TECHNIQUE = {}
+_T_BASE = ("Lean 4 machine-checked theorems about an executable model (induction / invariants / simulation, no size bound); model tied "
+           "to /repo on every run by ")
+_T_DIFF = ("finite tables regenerated from the live code and proved equal by decide, and a byte-exact differential correspondence between "
+           "the real Python and the compiled model driver; failing-input search with the property's oracle on the real code")
+_T_TR = "source-to-Lean TRANSLATION (Python ast -> Lean, regenerated every run) of {what}, each translated definition proved EQUAL to the model; plus "
+TECHNIQUE = {
+    "C05": _T_BASE + _T_TR.format(what="the lookup classes (serialize/lookup.py, parse/lookup.py) and split_iri") + _T_DIFF,
+    "C18": _T_BASE + _T_TR.format(what="the lookup classes (Lookup.insert / make_last_to_evict / encode_entry_index: the pinning logic)") + _T_DIFF,
+    "C06": _T_BASE + _T_TR.format(what="the frame-flow classes (serialize/flows.py)") + _T_DIFF,
+    "C07": _T_BASE + _T_TR.format(what="the grouped frame-flow classes (serialize/flows.py)") + _T_DIFF,
+    "C11": _T_BASE + _T_TR.format(what="the bounded frame-flow classes (serialize/flows.py)") + _T_DIFF,
+    "C08": _T_BASE + _T_TR.format(what="delimited_jelly_hint (proved equal to the model's detector for every byte string)") + _T_DIFF,
+    "C12": _T_BASE + _T_TR.format(what="split_iri") + _T_DIFF + "; process / thread / hash-seed runs",
+    "C13": _T_BASE + _T_TR.format(what="the validators of options.py (type compatibility for all pairs, flat, preset and version post-init)") + _T_DIFF,
+}
+_T_DEFAULT = _T_BASE + _T_DIFF
 NOT_YET = {}
 LEVEL = {
     "C05": "Theorem C05_mirror_history: for every table size 1..4096, each index rule and EVERY finite key history the joint "
